@@ -329,6 +329,12 @@ func (c *Client) validateVirtualChannelFundingProposal(
 		return errors.WithMessage(err, "insufficient funds")
 	}
 
+	// Assert correct balances: every participant is debited exactly its share
+	// of the virtual channel's funds.
+	if !ch.state().Balances.Sub(virtual).Equal(prop.State.Balances) {
+		return errors.New("invalid balances")
+	}
+
 	return nil
 }
 
